@@ -545,9 +545,13 @@ std::string gen_args(Rng& g, int& xmlfile)
   if (r < 4) return "- --xml -";
   if (r < 5) return "-";
   std::string a = g.chance(7, 8) ? "-" : "@IN";
+  // "every combination of command-line options": one vector in forty names no input at all (options only), one in
+  // forty names it twice
+  { int r = (int)g.below(40); if (r == 0) a = ""; else if (r == 1) a += g.chance(1, 2) ? " -" : " @IN"; }
   int nf = 0;
   // an output file is a memfd; one in ten is a file-layer fault instead: a path that cannot be opened, or a full disk
-  auto file = [&]() -> std::string { int r = (int)g.below(20); if (r == 0) return "@X"; if (r == 1) return "@FULL"; return fmt("@F%d", nf++); };
+  // (and one name in forty is the empty string: --xml '')
+  auto file = [&]() -> std::string { int r = (int)g.below(40); if (r <= 1) return "@X"; if (r <= 3) return "@FULL"; if (r == 4) return "@EMPTY"; return fmt("@F%d", nf++); };
   static const char* ALGO[] = {"gso", "svd", "cholesky", "envelope", "envelope", "bogus", "@EMPTY"};
   static const char* LANG[] = {"en", "cz", "cs", "fr", "ru", "zh", "xx", "ua", "es"};
   static const char* ENC[] = {"utf-8", "iso-8859-2", "iso-8859-2-flat", "cp-1250", "cp-1251", "latin1"};
